@@ -99,6 +99,7 @@ type fakeRT struct {
 	seed      int64
 	reqs      []*seenReq
 	bodies    []*fakeBody
+	clen      int64
 }
 
 func (rt *fakeRT) RoundTrip(req *http.Request) (*http.Response, error) {
@@ -134,7 +135,7 @@ func (rt *fakeRT) RoundTrip(req *http.Request) (*http.Response, error) {
 	rt.body = &fakeBody{data: rt.data, fault: rt.fault, rng: rand.New(rand.NewSource(rt.seed + int64(rt.calls)))}
 	rt.bodies = append(rt.bodies, rt.body)
 	return &http.Response{StatusCode: rt.status, Status: rt.statusTxt, Header: rt.hdr, Body: rt.body, Request: req,
-		Proto: "HTTP/1.1", ProtoMajor: 1, ProtoMinor: 1, ContentLength: -1}, nil
+		Proto: "HTTP/1.1", ProtoMajor: 1, ProtoMinor: 1, ContentLength: rt.clen}, nil
 }
 
 func (w *W) Header(h http.Header) {
@@ -187,6 +188,11 @@ func runC06(idx int, rng *rand.Rand, tier string) []Case {
 	name := []string{"", "atk", "big attack"}[rng.Intn(3)]
 	body := make([]byte, []int{0, 1, 5, 100, 5000}[rng.Intn(5)])
 	rng.Read(body)
+	// what net/http hands over for a HEAD request: the length the server declared, and no body
+	head := idx%9 == 4
+	if head {
+		tgt.Method, body = "HEAD", nil
+	}
 	mbs := []int64{-1, 0, int64(len(body)) - 1, int64(len(body)), int64(len(body)) + 1, 3}
 	maxBody := mbs[rng.Intn(len(mbs))]
 	if maxBody < -1 {
@@ -223,6 +229,12 @@ func runC06(idx int, rng *rand.Rand, tier string) []Case {
 		rt.hdr = nil
 	}
 	rt.data, rt.fault, rt.seed = body, fault, rng.Int63()
+	rt.clen = -1 // declared length: unknown, or (every 4th case) the exact length, or a HEAD answer's
+	if head {
+		rt.clen = int64(1 + rng.Intn(5000))
+	} else if idx%4 == 1 && fault < 0 {
+		rt.clen = int64(len(body))
+	}
 
 	atk := vegeta.NewAttacker(vegeta.Client(&http.Client{Transport: rt}), vegeta.Redirects(policy),
 		vegeta.MaxBody(maxBody), vegeta.ChunkedBody(chunked), vegeta.Workers(1), vegeta.MaxWorkers(1))
